@@ -83,6 +83,65 @@ type evO =
 | EatO of chunk
 | InsO of dev * chunk
 
+(** val evI_in : evI -> chunk **)
+
+let evI_in = function
+| PassI b -> b
+| EatI b -> b
+| InsI _ -> []
+
+(** val evI_out : evI -> chunk **)
+
+let evI_out = function
+| PassI b -> b
+| EatI _ -> []
+| InsI b -> b
+
+(** val inI_of : evI list -> byte list **)
+
+let inI_of h =
+  concat (map evI_in h)
+
+(** val outI_of : evI list -> byte list **)
+
+let outI_of h =
+  concat (map evI_out h)
+
+(** val dev_eqb : dev -> dev -> bool **)
+
+let dev_eqb a b =
+  match a with
+  | Std -> (match b with
+            | Std -> true
+            | Byp -> false)
+  | Byp -> (match b with
+            | Std -> false
+            | Byp -> true)
+
+(** val evO_in : evO -> chunk **)
+
+let evO_in = function
+| PassO (_, c, _) -> c
+| EatO b -> b
+| InsO (_, _) -> []
+
+(** val evO_out : dev -> evO -> chunk **)
+
+let evO_out d = function
+| PassO (d', _, c') -> if dev_eqb d d' then c' else []
+| EatO _ -> []
+| InsO (d', b) -> if dev_eqb d d' then b else []
+
+(** val inO_of : evO list -> byte list **)
+
+let inO_of h =
+  concat (map evO_in h)
+
+(** val outO_of : dev -> evO list -> byte list **)
+
+let outO_of d h =
+  concat (map (evO_out d) h)
+
 type state = { st : status; lk : owner; cin : chunk list; sin : chunk list;
                ibr : chunk; ibq : chunk list; obr : chunk; obq : chunk list;
                slog : byte list; clog : byte list; blog : byte list;
@@ -571,6 +630,53 @@ let rec run rc tm ls s =
      | Some s' -> run rc tm r s'
      | None -> None)
 
+(** val inflightI : inpc -> chunk **)
+
+let inflightI = function
+| I1 c -> c
+| I3 c -> c
+| I4 c -> c
+| I4a c -> c
+| I4u (c, _) -> c
+| I5 (c, _) -> c
+| _ -> []
+
+(** val inflightO : outpc -> chunk **)
+
+let inflightO = function
+| O1 c -> c
+| O3 c -> c
+| O4 c -> c
+| O4a c -> c
+| O4u (c, _) -> c
+| O5 (c, _) -> c
+| O5h (c, _) -> c
+| O5g (c, _) -> c
+| O5s (c, _) -> c
+| _ -> []
+
+(** val hs_flI : hspc -> chunk **)
+
+let hs_flI = function
+| HS1 (_, b) -> b
+| _ -> []
+
+(** val hs_flO : hspc -> chunk **)
+
+let hs_flO = function
+| HS2 (_, b) -> b
+| _ -> []
+
+(** val conserved_I_b : byte list -> state -> bool **)
+
+let conserved_I_b ci s =
+  (&&)
+    (list_eqb
+      (app (inI_of s.hI)
+        (app (hs_flI s.hpc)
+          (app (flat s.ibr s.ibq) (app (inflightI s.ipc) (concat s.cin)))))
+      ci) (list_eqb (outI_of s.hI) s.slog)
+
 type rv_role =
 | RvIn
 | RvOut
@@ -867,3 +973,341 @@ let rec rv_run tm es i s =
     (match rv_step tm e s with
      | Some s' -> rv_run tm r (S i) s'
      | None -> RvBad (i, s))
+
+(** val rg_current : bool **)
+
+let rg_current =
+  negb relay_reset_guarded
+
+(** val rg_reset : bool -> status -> state -> state **)
+
+let rg_reset ug expect s =
+  if ug
+  then set_st s StS
+  else (match expect with
+        | StS -> (match s.st with
+                  | StS -> set_st s StS
+                  | _ -> s)
+        | StH -> (match s.st with
+                  | StH -> set_st s StS
+                  | _ -> s)
+        | StT -> (match s.st with
+                  | StT -> set_st s StS
+                  | _ -> s))
+
+(** val rg_step : bool -> bool -> label -> state -> state option **)
+
+let rg_step ug tm l s =
+  match l with
+  | LInEnd cas ->
+    (match s.ipc with
+     | I6 t -> Some (set_ipc (if (&&) t cas then rg_reset ug StT s else s) I0)
+     | _ -> None)
+  | LOutEnd cas ->
+    (match s.opc with
+     | O6 -> Some (set_opc (if cas then rg_reset ug StT s else s) O0)
+     | _ -> None)
+  | LHsDone ->
+    (match s.hpc with
+     | HD cf ->
+       Some
+         (set_tl
+           (set_lk
+             (set_hpc (if cf then set_st s StT else rg_reset ug StH s) HN)
+             ByTl) true)
+     | _ -> None)
+  | _ -> step_fn true tm l s
+
+(** val rg_run : bool -> bool -> label list -> state -> state option **)
+
+let rec rg_run ug tm ls s =
+  match ls with
+  | [] -> Some s
+  | l :: r ->
+    (match rg_step ug tm l s with
+     | Some s' -> rg_run ug tm r s'
+     | None -> None)
+
+(** val conserved_O_b : byte list -> state -> bool **)
+
+let conserved_O_b si s =
+  (&&)
+    ((&&)
+      (list_eqb
+        (app (inO_of s.hO)
+          (app (hs_flO s.hpc)
+            (app (flat s.obr s.obq) (app (inflightO s.opc) (concat s.sin)))))
+        si) (list_eqb (outO_of Std s.hO) s.clog))
+    (list_eqb (outO_of Byp s.hO) s.blog)
+
+(** val rg_is_nil : byte list -> bool **)
+
+let rg_is_nil = function
+| [] -> true
+| _ :: _ -> false
+
+(** val rg_stranded : state -> bool **)
+
+let rg_stranded s =
+  (&&)
+    (negb
+      ((&&) (rg_is_nil (flat s.ibr s.ibq)) (rg_is_nil (flat s.obr s.obq))))
+    (match s.st with
+     | StH -> false
+     | _ -> true)
+
+(** val rg_bad : byte list -> byte list -> state -> bool **)
+
+let rg_bad ci si s =
+  (||) (negb ((&&) (conserved_I_b ci s) (conserved_O_b si s))) (rg_stranded s)
+
+(** val rg_has : coq_N -> byte list -> bool **)
+
+let rg_has x c =
+  existsb (N.eqb x) c
+
+(** val rg_line : byte list -> nat option **)
+
+let rec rg_line = function
+| [] -> None
+| b :: r ->
+  if N.eqb b (Npos (Coq_xO (Coq_xI (Coq_xO Coq_xH))))
+  then Some (S O)
+  else (match rg_line r with
+        | Some k -> Some (S k)
+        | None -> None)
+
+type rg_mem = { rg_ie : bool; rg_oe : bool; rg_cf : bool }
+
+(** val rg_mem0 : rg_mem **)
+
+let rg_mem0 =
+  { rg_ie = false; rg_oe = false; rg_cf = false }
+
+type rg_thread =
+| RgIn
+| RgOut
+| RgHs
+| RgTl
+
+(** val rg_next : rg_thread -> rg_mem -> state -> (label * rg_mem) option **)
+
+let rg_next th m s =
+  match th with
+  | RgIn ->
+    (match s.ipc with
+     | I0 -> (match s.cin with
+              | [] -> None
+              | _ :: _ -> Some (LInRead, m))
+     | I1 _ -> Some (LInLoad, m)
+     | I3 _ -> Some (LInLock, m)
+     | I4 _ -> Some (LInReload, m)
+     | I4a _ -> Some (LInAdd, m)
+     | I4p -> Some (LInUnlockP, m)
+     | I4u (_, _) -> Some (LInUnlockU, m)
+     | I5 (c, _) ->
+       Some (LInSend, { rg_ie = (rg_has (Npos (Coq_xI (Coq_xI Coq_xH))) c);
+         rg_oe = m.rg_oe; rg_cf = m.rg_cf })
+     | I6 _ -> Some ((LInEnd m.rg_ie), m))
+  | RgOut ->
+    (match s.opc with
+     | O0 -> (match s.sin with
+              | [] -> None
+              | _ :: _ -> Some (LOutRead, m))
+     | O1 _ -> Some (LOutLoad, m)
+     | O3 _ -> Some (LOutLock, m)
+     | O4 _ -> Some (LOutReload, m)
+     | O4a _ -> Some (LOutAdd, m)
+     | O4p -> Some (LOutUnlockP, m)
+     | O4u (_, _) -> Some (LOutUnlockU, m)
+     | O5 (c, t) ->
+       if t
+       then Some (LOutBypass, { rg_ie = m.rg_ie; rg_oe =
+              (rg_has (Npos (Coq_xI (Coq_xI Coq_xH))) c); rg_cf = m.rg_cf })
+       else Some ((LOutDetect (c,
+              (rg_has (Npos (Coq_xI (Coq_xO (Coq_xO Coq_xH)))) c))), m)
+     | O5h (_, _) -> Some (LOutStoreH, m)
+     | O5g (_, _) -> Some (LOutGo, m)
+     | O5s (_, _) -> Some (LOutSend, m)
+     | O6 -> Some ((LOutEnd m.rg_oe), m))
+  | RgHs ->
+    (match s.hpc with
+     | HN -> None
+     | H0 ->
+       (match rg_line (flat s.ibr s.ibq) with
+        | Some k ->
+          let line = firstn k (flat s.ibr s.ibq) in
+          Some ((LHsAct (k,
+          (if rg_has (Npos Coq_xH) line then RdOk else RdErr))), { rg_ie =
+          m.rg_ie; rg_oe = m.rg_oe; rg_cf =
+          (rg_has (Npos (Coq_xI Coq_xH)) line) })
+        | None -> None)
+     | H2 ->
+       Some ((LHsSendAct (((Npos (Coq_xI (Coq_xO (Coq_xI (Coq_xO (Coq_xO
+         (Coq_xI Coq_xH))))))) :: []), m.rg_cf)), m)
+     | H3 ->
+       (match rg_line (flat s.obr s.obq) with
+        | Some k ->
+          Some ((LHsCfg (k,
+            (if rg_has (Npos (Coq_xO Coq_xH)) (firstn k (flat s.obr s.obq))
+             then RdOk
+             else RdErr))), m)
+        | None -> None)
+     | H4 ->
+       Some ((LHsSendCfg ((Npos (Coq_xO (Coq_xI (Coq_xI (Coq_xO (Coq_xO
+         (Coq_xI Coq_xH))))))) :: [])), m)
+     | HF1 ->
+       Some ((LHsFail1 ((Npos (Coq_xI (Coq_xI (Coq_xI (Coq_xO (Coq_xO (Coq_xI
+         Coq_xH))))))) :: [])), m)
+     | HF2 ->
+       Some ((LHsFail2 ((Npos (Coq_xI (Coq_xI (Coq_xI (Coq_xO (Coq_xO (Coq_xI
+         Coq_xH))))))) :: [])), m)
+     | HL _ -> Some (LHsLock, m)
+     | HP1 _ -> Some (LHsPopI, m)
+     | HS1 (_, _) -> Some (LHsSendI, m)
+     | HP2 _ -> Some (LHsPopO, m)
+     | HS2 (_, _) -> Some (LHsSendO, m)
+     | HD _ -> Some (LHsDone, m))
+  | RgTl -> if s.tlk then Some (LTlUnlock, m) else None
+
+(** val rg_move :
+    bool -> bool -> rg_thread -> (rg_mem * state) ->
+    (label * (rg_mem * state)) option **)
+
+let rg_move ug tm th ms =
+  match rg_next th (fst ms) (snd ms) with
+  | Some p ->
+    let (l, m') = p in
+    (match rg_step ug tm l (snd ms) with
+     | Some s' -> Some (l, (m', s'))
+     | None -> None)
+  | None -> None
+
+(** val rg_at_head : rg_thread -> state -> bool **)
+
+let rg_at_head th s =
+  match th with
+  | RgIn -> (match s.ipc with
+             | I0 -> true
+             | _ -> false)
+  | RgOut -> (match s.opc with
+              | O0 -> true
+              | _ -> false)
+  | RgHs -> (match s.hpc with
+             | HN -> true
+             | _ -> false)
+  | RgTl -> negb s.tlk
+
+(** val rp_current : bool **)
+
+let rp_current =
+  negb relay_handshaking_stored_by_reader
+
+type rp_state = bool * state
+
+type rp_label =
+| RpL of label
+| RpPublish
+
+(** val rp_is_hs : label -> bool **)
+
+let rp_is_hs = function
+| LHsAct (_, _) -> true
+| LHsSendAct (_, _) -> true
+| LHsCfg (_, _) -> true
+| LHsSendCfg _ -> true
+| LHsFail1 _ -> true
+| LHsFail2 _ -> true
+| LHsLock -> true
+| LHsPopI -> true
+| LHsSendI -> true
+| LHsPopO -> true
+| LHsSendO -> true
+| LHsDone -> true
+| _ -> false
+
+(** val rp_keep : bool -> state option -> rp_state option **)
+
+let rp_keep pend = function
+| Some s -> Some (pend, s)
+| None -> None
+
+(** val rp_step :
+    bool -> bool -> bool -> rp_label -> rp_state -> rp_state option **)
+
+let rp_step late ug tm x = function
+| (pend, s) ->
+  (match x with
+   | RpL l ->
+     if (&&) pend (rp_is_hs l)
+     then None
+     else (match l with
+           | LOutStoreH ->
+             if late
+             then (match s.opc with
+                   | O5h (c, c') -> Some (pend, (set_opc s (O5g (c, c'))))
+                   | _ -> None)
+             else rp_keep pend (rg_step ug tm l s)
+           | LOutGo -> rp_keep late (rg_step ug tm l s)
+           | _ -> rp_keep pend (rg_step ug tm l s))
+   | RpPublish -> if pend then Some (false, (set_st s StH)) else None)
+
+(** val rp_run :
+    bool -> bool -> bool -> rp_label list -> rp_state -> rp_state option **)
+
+let rec rp_run late ug tm ls ps =
+  match ls with
+  | [] -> Some ps
+  | l :: r ->
+    (match rp_step late ug tm l ps with
+     | Some ps' -> rp_run late ug tm r ps'
+     | None -> None)
+
+(** val rp_next :
+    rg_thread -> rg_mem -> rp_state -> (rp_label * rg_mem) option **)
+
+let rp_next th m ps =
+  match th with
+  | RgHs ->
+    if fst ps
+    then Some (RpPublish, m)
+    else (match rg_next th m (snd ps) with
+          | Some p -> let (l, m') = p in Some ((RpL l), m')
+          | None -> None)
+  | _ ->
+    (match rg_next th m (snd ps) with
+     | Some p -> let (l, m') = p in Some ((RpL l), m')
+     | None -> None)
+
+(** val rp_move :
+    bool -> bool -> bool -> rg_thread -> (rg_mem * rp_state) ->
+    (rp_label * (rg_mem * rp_state)) option **)
+
+let rp_move late ug tm th x =
+  match rp_next th (fst x) (snd x) with
+  | Some p ->
+    let (l, m') = p in
+    (match rp_step late ug tm l (snd x) with
+     | Some ps' -> Some (l, (m', ps'))
+     | None -> None)
+  | None -> None
+
+(** val rp_at_head : rg_thread -> rp_state -> bool **)
+
+let rp_at_head th ps =
+  match th with
+  | RgHs -> (&&) (negb (fst ps)) (rg_at_head th (snd ps))
+  | _ -> rg_at_head th (snd ps)
+
+(** val rp_holds : state -> bool **)
+
+let rp_holds s =
+  negb
+    ((&&)
+      ((&&)
+        ((&&)
+          ((&&)
+            ((&&) (rg_is_nil (flat s.ibr s.ibq))
+              (rg_is_nil (flat s.obr s.obq))) (rg_is_nil (inflightI s.ipc)))
+          (rg_is_nil (inflightO s.opc))) (rg_is_nil (hs_flI s.hpc)))
+      (rg_is_nil (hs_flO s.hpc)))
